@@ -248,6 +248,8 @@ pub enum TypedOp {
     AllocUninitSliceU8(usize),
     /// a slice whose byte size overflows
     SliceOverflow,
+    /// `alloc(())`: a value of a zero-sized type never touches the allocator
+    AllocUnit,
 }
 
 #[derive(Clone, Copy, Debug, PartialEq, Eq)]
@@ -259,7 +261,7 @@ pub struct Blk {
 
 #[repr(align(32))]
 #[derive(Clone, Copy)]
-pub struct Align32(pub [u8; 40]);
+pub struct Align32(pub [u8; 32]);
 
 /// Region kinds entered through the real closure / guard APIs.
 #[derive(Clone, Copy, Debug, PartialEq, Eq, Hash)]
@@ -275,6 +277,9 @@ pub enum Region {
     Checkpoint,
     /// `claim()`: the body runs on the guard, `orig` is the claimed handle
     Claim,
+    /// `by_value()`: the body runs on the by-value scope; not a scope (nothing is rewound), but everything
+    /// allocated through it is bounded by the borrow and therefore dead afterwards
+    ByValue,
 }
 
 pub type Body<'x> = &'x mut dyn FnMut(&mut dyn DynArena, Option<&dyn DynArena>);
@@ -318,6 +323,8 @@ pub trait DynArena {
     fn d_stats(&self, out: &mut StatsSnap);
     fn d_debug_string(&self) -> String;
     fn d_allocator_ident(&self) -> Option<u64>;
+    /// calls `claim()` on an already claimed handle; true = it panicked (as documented)
+    fn d_second_claim_panics(&self) -> bool;
 
     /// root only
     fn d_reset(&mut self) -> bool;
@@ -326,7 +333,7 @@ pub trait DynArena {
     fn d_region(&mut self, r: Region, body: Body<'_>);
 
     /// `alloc_try_with(_mut)`; for the shared form the closure may allocate `inner_alloc` through the same arena.
-    fn d_alloc_try_with(&mut self, mutable: bool, ok: bool, inner_alloc: Option<Layout>) -> Result<Blk, ()>;
+    fn d_alloc_try_with(&mut self, mutable: bool, ok: bool, inner_alloc: Option<Layout>, try_: bool) -> Result<Blk, ()>;
 }
 
 macro_rules! typed_body {
@@ -380,6 +387,10 @@ macro_rules! typed_body {
                 Blk { ptr: p.cast(), len: n, align: 1 }
             }),
             TypedOp::SliceOverflow => both!(b.try_allocate_slice::<u64>(usize::MAX / 4), b.allocate_slice::<u64>(usize::MAX / 4)).map(|p| blk(p, 0)),
+            TypedOp::AllocUnit => both!(c.try_alloc(()), c.alloc(())).map(|bx| {
+                let p = bx.into_raw();
+                blk(p, 1)
+            }),
         }
     }};
 }
@@ -798,6 +809,10 @@ where
             body(scope, None);
             unsafe { scope.reset_to(cp) };
         }
+        Region::ByValue => {
+            let mut s = scope.by_value();
+            body(&mut s, None);
+        }
         Region::Claim => {
             let mut guard = scope.claim();
             let orig: &BumpScope<'a, A, S> = scope;
@@ -826,6 +841,13 @@ where
     fn d_allocator_ident(&self) -> Option<u64> {
         BumpAllocatorScope::allocator(self).map(|a| a.ident())
     }
+    fn d_second_claim_panics(&self) -> bool {
+        std::panic::catch_unwind(std::panic::AssertUnwindSafe(|| {
+            let g = BumpAllocatorScope::claim(self);
+            std::mem::forget(g);
+        }))
+        .is_err()
+    }
     fn d_reset(&mut self) -> bool {
         false
     }
@@ -835,29 +857,43 @@ where
     fn d_region(&mut self, r: Region, body: Body<'_>) {
         region_on_scope(self, r, body)
     }
-    fn d_alloc_try_with(&mut self, mutable: bool, ok: bool, inner_alloc: Option<Layout>) -> Result<Blk, ()> {
-        alloc_try_with_on(self, mutable, ok, inner_alloc)
+    fn d_alloc_try_with(&mut self, mutable: bool, ok: bool, inner_alloc: Option<Layout>, try_: bool) -> Result<Blk, ()> {
+        alloc_try_with_on(self, mutable, ok, inner_alloc, try_)
     }
 }
 
-fn alloc_try_with_on<A, S>(scope: &mut BumpScope<'_, A, S>, mutable: bool, ok: bool, inner_alloc: Option<Layout>) -> Result<Blk, ()>
+fn alloc_try_with_on<A, S>(scope: &mut BumpScope<'_, A, S>, mutable: bool, ok: bool, inner_alloc: Option<Layout>, try_: bool) -> Result<Blk, ()>
 where
     A: BaseAllocator<S::GuaranteedAllocated> + SlabKind,
     S: BumpAllocatorSettings + 'static,
 {
     let val = [0x5Au8; 24];
+    let conv = |bx: bump_scope::BumpBox<'_, [u8; 24]>| Blk { ptr: bx.into_raw().cast(), len: 24, align: 1 };
     if mutable {
-        let r = scope.alloc_try_with_mut(|| if ok { Ok(val) } else { Err(()) });
-        r.map(|bx| Blk { ptr: bx.into_raw().cast(), len: 24, align: 1 })
+        if try_ {
+            match scope.try_alloc_try_with_mut(|| if ok { Ok(val) } else { Err(()) }) {
+                Ok(r) => r.map(conv),
+                Err(_) => Err(()),
+            }
+        } else {
+            scope.alloc_try_with_mut(|| if ok { Ok(val) } else { Err(()) }).map(conv)
+        }
     } else {
         let sc: &BumpScope<'_, A, S> = scope;
-        let r = sc.alloc_try_with(|| {
+        let f = || {
             if let Some(l) = inner_alloc {
                 let _ = Allocator::allocate(sc, l);
             }
             if ok { Ok(val) } else { Err(()) }
-        });
-        r.map(|bx| Blk { ptr: bx.into_raw().cast(), len: 24, align: 1 })
+        };
+        if try_ {
+            match sc.try_alloc_try_with(f) {
+                Ok(r) => r.map(conv),
+                Err(_) => Err(()),
+            }
+        } else {
+            sc.alloc_try_with(f).map(conv)
+        }
     }
 }
 
@@ -892,6 +928,13 @@ where
     fn d_allocator_ident(&self) -> Option<u64> {
         self.allocator().map(|a| a.ident())
     }
+    fn d_second_claim_panics(&self) -> bool {
+        std::panic::catch_unwind(std::panic::AssertUnwindSafe(|| {
+            let g = self.claim();
+            std::mem::forget(g);
+        }))
+        .is_err()
+    }
     fn d_reset(&mut self) -> bool {
         Bump::reset(self);
         true
@@ -917,20 +960,35 @@ where
             _ => region_on_scope(self.as_mut_scope(), r, body),
         }
     }
-    fn d_alloc_try_with(&mut self, mutable: bool, ok: bool, inner_alloc: Option<Layout>) -> Result<Blk, ()> {
+    fn d_alloc_try_with(&mut self, mutable: bool, ok: bool, inner_alloc: Option<Layout>, try_: bool) -> Result<Blk, ()> {
+        // `Bump`'s own forwarding methods
         let val = [0x5Au8; 24];
+        let conv = |bx: bump_scope::BumpBox<'_, [u8; 24]>| Blk { ptr: bx.into_raw().cast(), len: 24, align: 1 };
         if mutable {
-            let r = Bump::alloc_try_with_mut(self, || if ok { Ok(val) } else { Err(()) });
-            r.map(|bx| Blk { ptr: bx.into_raw().cast(), len: 24, align: 1 })
+            if try_ {
+                match Bump::try_alloc_try_with_mut(self, || if ok { Ok(val) } else { Err(()) }) {
+                    Ok(r) => r.map(conv),
+                    Err(_) => Err(()),
+                }
+            } else {
+                Bump::alloc_try_with_mut(self, || if ok { Ok(val) } else { Err(()) }).map(conv)
+            }
         } else {
             let sc: &Bump<A, S> = self;
-            let r = sc.alloc_try_with(|| {
+            let f = || {
                 if let Some(l) = inner_alloc {
                     let _ = Allocator::allocate(sc, l);
                 }
                 if ok { Ok(val) } else { Err(()) }
-            });
-            r.map(|bx| Blk { ptr: bx.into_raw().cast(), len: 24, align: 1 })
+            };
+            if try_ {
+                match sc.try_alloc_try_with(f) {
+                    Ok(r) => r.map(conv),
+                    Err(_) => Err(()),
+                }
+            } else {
+                sc.alloc_try_with(f).map(conv)
+            }
         }
     }
 }
